@@ -153,7 +153,8 @@ def run(ctx):
         opts = R.gen_opts(rng)
         if rng.random() < 0.5:
             opts['strip'] = True
-            strings = [rng.choice(['', ' ', '  ', '\t']) + s + rng.choice(['', ' ', '   ']) for s in strings]
+            # (every string padded: an expression without the white-space allowance then matches nothing as given)
+            strings = [rng.choice([' ', '  ', '\t']) + s + rng.choice(['', ' ', '   ']) for s in strings]
 
         def check(rexes, maxN=None, strings=strings):
             pats = [re.compile(r_, R.RE_FLAGS) for r_ in rexes]
